@@ -304,6 +304,26 @@ class Real:
         return {"restricted": restricted, "dgrant": dg, "tgrant": tg, "tables": tables}
 
 
+def private_overlay(sd):
+    """vf.make_overlay + private copies of the two generated files (the shared cache is pruned by other checks running
+    at the same time; a pruned file between generation and `go build` would be a spurious exit 2)"""
+    import shutil
+    for attempt in range(3):
+        ov = vf.make_overlay(sd, [])
+        j = json.load(open(ov))
+        try:
+            for k, v in list(j["Replace"].items()):
+                if v.startswith(vf.CACHE):
+                    dst = os.path.join(sd, os.path.basename(v))
+                    shutil.copy(v, dst)
+                    j["Replace"][k] = dst
+            json.dump(j, open(ov, "w"), indent=1)
+            return ov
+        except OSError:
+            continue
+    raise vf.NoVerdict("generated build files keep disappearing from the shared cache")
+
+
 def outcome(status):
     if 200 <= status < 300:
         return "ok"
@@ -380,7 +400,29 @@ def gen(chk, sd, num, depth, seed, name):
     return r, behs
 
 
+def run_replay(path):
+    """bin/verif check C43 --replay replays/C43-....json : re-run one recorded history against a real server"""
+    rp = json.load(open(path))["replay"]
+    beh = rp["behaviour"] + [{"call": {"kind": "end"}, "st": rp["behaviour"][-1]["st"]}]
+    chk = vf.Check(PROP)
+    with vf.scratch() as sd:
+        ego = vf.build_ego(sd, private_overlay(sd))
+        out, lock = [], threading.Lock()
+        worker(sd, ego, rp.get("mode", "file"), beh[0]["cfg"], 0, [(0, beh)], out, lock)
+        for kind, key, what, at in out[0]["findings"]:
+            print("%s %s: %s" % (kind.upper(), key, what), flush=True)
+            if kind == "violation":
+                chk.violation(key, what, dict(rp, observed=out[0]["obs"][at]))
+        print("replayed %d steps on a %s-store server" % (out[0]["steps"], rp.get("mode", "file")), flush=True)
+        chk.cov.update(states=1, transitions=1, traces_validated_against_impl=1, evaluations=out[0]["steps"],
+                       rule="single recorded history replayed (--replay)")
+        chk.sample({"kind": "replayed history", "requests": concrete(beh, len(beh) - 2)})
+    return chk.finish()
+
+
 def run():
+    if os.environ.get("VERIF_REPLAY"):
+        return run_replay(os.environ["VERIF_REPLAY"])
     thorough = vf.TIER == "thorough"
     chk = vf.Check(PROP)
     chk.assumptions += [
@@ -398,7 +440,7 @@ def run():
         ngen = 8 if thorough else 1
         pool = ThreadPoolExecutor(max_workers=12)
         # everything that does not depend on anything else runs side by side
-        f_build = pool.submit(lambda: vf.build_ego(sd, vf.make_overlay(sd, [])))
+        f_build = pool.submit(lambda: vf.build_ego(sd, private_overlay(sd)))
         f_mc = pool.submit(vf.tlc, SPEC, "TableGrants", "TableGrants_MC.cfg" if thorough else "TableGrants_MCq.cfg", sd,
                            workers=8 if thorough else 4, timeout=1500)
         f_neg = {v: pool.submit(vf.tlc, SPEC, "TableGrants", "TableGrants_MC_%s.cfg" % v, sd, workers=2, timeout=600)
